@@ -49,27 +49,6 @@ theorem cell_atomic (s s' : St) (es : List Ev) (hr : model.run s es = some s')
       simp only [opsAlong, hst']
       cases opOf s e <;> simp
 
-theorem inc_newVal (m val : Nat) (hm : m ≠ 1) : (Op.swap .inc).newVal m val = val + 1 := by
-  have hne : compare m val (val + 1) = false := by
-    unfold compare
-    have h1 : (val == val + 1) = false := by simp
-    rw [h1]
-    by_cases hm0 : m = 0
-    · simp [hm0]
-    · have hpos : 0 < m := Nat.pos_of_ne_zero hm0
-      have hlt := Nat.mod_lt val hpos
-      have : val % m ≠ (val + 1) % m := by
-        intro h
-        rw [Nat.add_mod] at h
-        by_cases hlast : val % m + 1 < m
-        · rw [Nat.mod_eq_of_lt (by omega : 1 < m), Nat.mod_eq_of_lt hlast] at h; omega
-        · have hm2 : 1 < m := by omega
-          rw [Nat.mod_eq_of_lt hm2] at h
-          have : val % m + 1 = m := by omega
-          rw [this, Nat.mod_self] at h; omega
-      simp [hm0, this]
-  simp [Op.newVal, SwapF.apply, hne]
-
 /-- **C15: N `SwapValue(increment)` calls give +N**, whatever their interleaving with each other and
 with reads (under any equality except "everything is equal"): no update is lost. -/
 theorem swap_inc_adds (s s' : St) (es : List Ev) (hr : model.run s es = some s')
